@@ -197,6 +197,15 @@ func (c *FnCtx) calleeDecl(fobj *types.Func) (*Pkg, *ast.FuncDecl) {
 func (c *FnCtx) callFunc(x *ast.CallExpr, fobj *types.Func, recvExpr ast.Expr, st *State) []string {
 	sig := fobj.Type().(*types.Signature)
 	key := funcFullKey(fobj.Origin())
+	if recvExpr != nil {
+		rt := c.typeOf(recvExpr)
+		if p, ok := rt.Underlying().(*types.Pointer); ok {
+			rt = p.Elem()
+		}
+		if isBufferType(rt) {
+			return c.bufferCall(x, fobj, recvExpr, st)
+		}
+	}
 	// interface method call
 	if recvExpr != nil && isIface(sig.Recv().Type()) {
 		if con := c.prog.Contracts[key]; con != nil {
@@ -227,7 +236,38 @@ func (c *FnCtx) callFunc(x *ast.CallExpr, fobj *types.Func, recvExpr ast.Expr, s
 			if recvExpr != nil {
 				all = append([]string{recv}, args...)
 			}
-			return c.pureUF("pf!"+sanitize(key), fobj, all, st, false)
+			res := c.pureUF("pf!"+sanitize(key), fobj, all, st, false)
+			if c.specMode == 0 && len(con.Ensures) > 0 {
+				// a pure function with a (verified) contract: its result is the uninterpreted function of the
+				// arguments, and the postconditions are known facts about it
+				names, resNames := c.paramNames(fobj.Origin())
+				bind := map[string]string{}
+				for i, n := range names {
+					if i < len(all) {
+						bind[n] = all[i]
+					}
+				}
+				for i, n := range resNames {
+					if i < len(res) {
+						bind[n] = res[i]
+					}
+				}
+				saveOld := c.oldState
+				c.oldState = st
+				for _, cl := range con.Requires {
+					g := c.evalClause(cl, c.prog.Pkgs[con.Pkg], bind, st)
+					save := c.curProp
+					c.curProp = cl.Prop
+					c.oblige(st, "pre", fmt.Sprintf("call[%s].pre", fobj.Name()), g, x.Pos(), cl.Text)
+					c.curProp = save
+					st.addFact(g)
+				}
+				for _, cl := range con.Ensures {
+					st.addFact(c.evalClause(cl, c.prog.Pkgs[con.Pkg], bind, st))
+				}
+				c.oldState = saveOld
+			}
+			return res
 		}
 		if con.Mode == "opaque" {
 			return c.opaqueResults(fobj, key, st, true)
@@ -1027,7 +1067,7 @@ func (c *FnCtx) checkPost(st *State, vals []string, pos token.Pos) {
 		}
 	}
 	// reachability of this return under the contract's assumptions (vacuity guard)
-	{
+	if c.unroll == 0 {
 		save := c.curProp
 		c.curProp = "*"
 		c.oblige(st, "reach", "reach@"+c.retSite, "false", pos, "return site reachable: "+c.retSite)
@@ -1117,6 +1157,14 @@ func (c *FnCtx) scanCallWrites(x *ast.CallExpr, li *loopInfo) {
 			if s.Kind() == types.MethodVal {
 				fobj, _ = s.Obj().(*types.Func)
 				isIfaceCall = isIface(s.Recv())
+				if rt := info.TypeOf(f.X); rt != nil && isBufferType(rt) {
+					if id, ok := unparen(f.X).(*ast.Ident); ok {
+						if o := info.Uses[id]; o != nil {
+							li.assignedVars[o] = true
+						}
+					}
+					return
+				}
 			}
 		} else if o, ok := info.Uses[f.Sel].(*types.Func); ok {
 			fobj = o
